@@ -50,6 +50,7 @@ LEVEL_NOTE = ("trusted: Lean kernel, axioms propext/Classical.choice/Quot.sound 
 RULE = ("api: every sequence over {save(1), save(0), ins a, ins b, backspace, cursor=0, undo, redo} up to the tier's "
         "length from two initial documents, every sequence of save-then-edit commands/undo/redo up to the tier's "
         "length, then seeded random sequences (<= 40 calls incl. reset, text/cursor/document setters, unicode); keys: "
+        "(cursor position reports are injected at random key boundaries of the sampled / random sessions) "
         "every key sequence up to the tier's length over a small emacs and a small vi alphabet (incl. undo keys, a redo "
         "binding, custom bindings with if_no_repeat / only-on-repeat rules), then seeded random sessions (<= 40 keys "
         "over ~70 emacs / ~60 vi key tokens, single and multi line, with history, macros, counts, paste, with tails of "
@@ -60,11 +61,11 @@ EXHAUSTIVE = True
 EXHAUSTIVE_SCOPE = {
     "quick": "api: all sequences len<=4 over 8 calls x 2 initial docs, all command sequences len<=4 over 7 commands; "
              "keys: all sequences len<=2 over 9 emacs keys and 9 vi keys (+150 sampled of len 3-5 each); fully modelled "
-             "emacs keys: all sequences len<=3 over {a, b, backspace, left, c-k, c-_, redo} (+250 sampled of len 4-5); "
+             "emacs keys: all sequences len<=3 over {a, b, backspace, left, c-k, c-_, c-x c-u, redo} (+250 sampled of len 4-5); "
              "fully modelled vi keys: all sequences len<=3 over {i, a, x, u, escape, redo} (+200 sampled of len 4-6)",
     "thorough": "api: all sequences len<=5 over 8 calls x 2 initial docs, all command sequences len<=5 over 7 commands; "
                 "keys: all sequences len<=3 over 9 emacs keys and 9 vi keys (+1000 sampled of len 4-6 each); fully "
-                "modelled emacs keys: all sequences len<=4 over {a, b, backspace, left, c-k, c-_, redo} (+2000 sampled "
+                "modelled emacs keys: all sequences len<=4 over {a, b, backspace, left, c-k, c-_, c-x c-u, redo} (+2000 sampled "
                 "of len 5-7); fully modelled vi keys: all sequences len<=4 over {i, a, x, u, escape, redo} (+1500 "
                 "sampled of len 5-8)"}
 TRUSTED = ["harness/c07.py observes every KeyProcessor._call_handler call by wrapping the bound method on the instance "
@@ -299,6 +300,7 @@ async def _session(case):
     from prompt_toolkit.key_binding import KeyBindings
     from prompt_toolkit.key_binding.key_processor import KeyPress, _Flush
     from prompt_toolkit.key_binding.vi_state import InputMode
+    from prompt_toolkit.keys import Keys
     from prompt_toolkit.output import DummyOutput
 
     kb = KeyBindings()
@@ -392,7 +394,8 @@ async def _session(case):
                 "pre": pre, "post": (buf.text, buf.cursor_position),
                 "prev": hid_of(kp._previous_handler),
                 "U": list(buf._undo_stack), "R": list(buf._redo_stack),
-                "fed": fed["i"], "key": fed["key"], "nkeys": len(key_sequence),
+                "fed": fed["i"], "fedx": fed["i"] - sum(1 for n_, _ in case["ops"][:max(fed["i"], 0)] if n_ == "<cpr>"),
+                "key": fed["key"], "nkeys": len(key_sequence),
                 "name": getattr(handler.handler, "__name__", "?"), "insert": insert and not sel,
                 "bkeys": [getattr(x, "value", x) for x in handler.keys],
                 "ins_after": app.vi_state.input_mode == InputMode.INSERT,
@@ -422,6 +425,15 @@ async def _session(case):
                 if name == "<flush>":
                     kp.feed(_Flush)
                     kp.process_keys()
+                    continue
+                if name == "<cpr>":
+                    # a cursor position report (ESC [ row ; col R) arriving at this key boundary: it is
+                    # answered by KeyProcessor._process_cpr_response, not by _call_handler
+                    kp.feed(KeyPress(Keys.CPRResponse, "\x1b[3;1R"))
+                    kp.process_keys()
+                    recs.append({"cpr": True, "post": (buf.text, buf.cursor_position),
+                                 "prev": hid_of(kp._previous_handler), "U": list(buf._undo_stack),
+                                 "R": list(buf._redo_stack), "fed": i})
                     continue
                 if name == "<kpreset>":
                     # KeyProcessor.reset() (what Application.reset() does): forgets the previous handler
@@ -484,6 +496,9 @@ def keys_model(case):
         if r.get("kp_reset"):
             out.append("kpreset")
             continue
+        if r.get("cpr"):
+            out.append("cpr")
+            continue
         atoms = " ".join(r["atoms"]) if r["atoms"] else f"E {enc_str(r['post'][0])} {r['post'][1]}"
         out.append(f"call {r['h']} {r['r0']} {r['r1']} {atoms}")
     out += ["undo"] * len(tr["tail"])
@@ -525,7 +540,8 @@ def _is_char_delete(r, key):
 
 def keys_oracle(case):
     tr = trace(case)
-    recs = [r for r in tr["recs"] if not r.get("kp_reset")]
+    # KeyProcessor.reset() markers and cursor position reports are not commands
+    recs = [r for r in tr["recs"] if not r.get("kp_reset") and not r.get("cpr")]
     v = []
     names = [k for k, _ in case["ops"]]
     odd = "f10" in names        # a harness binding that edits without saving: only soundness is required
@@ -574,14 +590,11 @@ def keys_oracle(case):
         else:
             streak, streak_log = [], None
             prev_step = None
-        if r["saved"]:
-            # the command boundary saved (with clear_redo_stack): a new edit, the redo history goes.
-            # (For an undo/redo handler that saves, the save precedes its undo()/redo() calls; such
-            # handlers are not shipped: their chain bookkeeping is simply dropped.)
-            if r["steps"]:
-                chain, exact = [], False
-            else:
-                chain, exact = [], True
+        if r["saved"] and not r["steps"]:
+            # the command boundary of a non-undo/redo command saved: a new edit, the redo history goes.
+            # (An undo / redo command is NOT a new edit: the states undone before it must stay redoable,
+            # whichever undo key — C-_ or C-x C-u — was used.)
+            chain, exact = [], True
         if not r["steps"]:
             if post[0] != pre[0] and r["R"] and not odd:
                 bad("edit command | redo history kept", "a new edit did not discard the redo stack", i)
@@ -602,7 +615,8 @@ def keys_oracle(case):
             def member(r):
                 return _is_char_insert(r) if kind == "ins" else _is_char_delete(r, kind)
             j = i
-            while (j + 1 < n and member(recs[j + 1]) and recs[j + 1]["fed"] == recs[j]["fed"] + 1
+            # consecutive typed keys; a CPR response in between must be invisible (fedx skips them)
+            while (j + 1 < n and member(recs[j + 1]) and recs[j + 1]["fedx"] == recs[j]["fedx"] + 1
                    and recs[j + 1]["h"] == recs[i]["h"]):
                 j += 1
             left_ok = not (i > 0 and recs[i - 1]["h"] == recs[i]["h"])
@@ -654,19 +668,32 @@ def _ekeys_as_keys(case):
 def ekeys_model(case):
     out = [f"init {enc_str(case['text'])} {case['cur']}"]
     for name, data in case["ops"]:
-        out.append(f"ekey char {ord(data)}" if len(name) == 1 else f"ekey {name}")
+        out.append("cpr" if name == "<cpr>" else f"ekey char {ord(data)}" if len(name) == 1 else f"ekey {name}")
+    return out
+
+
+def _static_lines(tr, first, hid_of_rec, suffix):
+    """one line per handler call / CPR response; the previous handler is reported with the static id"""
+    out = [first]
+    last = ("N", None)       # (static id, session-local id) of the last handler that ran
+    for r in tr["recs"]:
+        if r.get("cpr"):
+            hid = last[0] if r["prev"] == (last[1] if last[1] is not None else "N") else f"prev-changed-by-cpr({r['prev']})"
+            out.append(state_line(r["post"][0], r["post"][1], hid, r["U"], r["R"]) + suffix(r, out[-1]))
+            continue
+        hid = hid_of_rec(r)
+        if r["prev"] != r["h"]:
+            hid = f"prev-not-updated({hid})"
+        last = (hid, r["h"])
+        out.append(state_line(r["post"][0], r["post"][1], hid, r["U"], r["R"]) + suffix(r, out[-1]))
     return out
 
 
 def ekeys_impl(case):
     tr = trace(_ekeys_as_keys(case))
-    out = [state_line(case["text"], case["cur"], "N", [], [])]
-    for r in tr["recs"]:
-        hid = E_HID.get((r["name"], tuple(r["bkeys"])), f"?{r['name']}{r['bkeys']}")
-        if r["prev"] != r["h"]:
-            hid = f"prev-not-updated({hid})"
-        out.append(state_line(r["post"][0], r["post"][1], hid, r["U"], r["R"]))
-    return out
+    return _static_lines(tr, state_line(case["text"], case["cur"], "N", [], []),
+                         lambda r: E_HID.get((r["name"], tuple(r["bkeys"])), f"?{r['name']}{r['bkeys']}"),
+                         lambda r, prev_line: "")
 
 
 # ------------------------------------------------------------------ fully modelled vi keys
@@ -680,18 +707,19 @@ def _vkeys_as_keys(case):
 
 
 def vkeys_model(case):
-    return [f"vinit {enc_str(case['text'])} {case['cur']}"] + [f"vkey {name}" for name, _ in case["ops"]]
+    return [f"vinit {enc_str(case['text'])} {case['cur']}"] + \
+        ["vcpr" if name == "<cpr>" else f"vkey {name}" for name, _ in case["ops"]]
 
 
 def vkeys_impl(case):
     tr = trace(_vkeys_as_keys(case))
-    out = [state_line(case["text"], case["cur"], "N", [], []) + " I"]
-    for r in tr["recs"]:
-        hid = V_HID.get(r["name"], f"?{r['name']}")
-        if r["prev"] != r["h"]:
-            hid = f"prev-not-updated({hid})"
-        out.append(state_line(r["post"][0], r["post"][1], hid, r["U"], r["R"]) + (" I" if r["ins_after"] else " N"))
-    return out
+
+    def suffix(r, prev_line):
+        if r.get("cpr"):
+            return prev_line[-2:]          # a CPR response leaves the input mode alone
+        return " I" if r["ins_after"] else " N"
+    return _static_lines(tr, state_line(case["text"], case["cur"], "N", [], []) + " I",
+                         lambda r: V_HID.get(r["name"], f"?{r['name']}"), suffix)
 
 
 def _as_keys(case):
@@ -816,6 +844,15 @@ def _api_cases(quick, rng):
         yield {"kind": "api", "text": text, "cur": cur, "disc": disc, "ops": ops}
 
 
+def _inject_cpr(ops, rng, p=0.5):
+    """cursor position reports arrive at arbitrary key boundaries (also inside a key sequence)"""
+    if rng.random() < p:
+        ops = list(ops)
+        for _ in range(rng.randrange(1, 4)):
+            ops.insert(rng.randrange(len(ops) + 1), ["<cpr>", None])
+    return ops
+
+
 def _key_cases(quick, rng):
     kcases = []
     maxlen = 2 if quick else 3
@@ -826,10 +863,14 @@ def _key_cases(quick, rng):
             tups += [tuple(rng.choice(alpha) for _ in range(rng.choice([3, 3, 4, 5]))) for _ in range(150)]
         else:
             tups += [tuple(rng.choice(alpha) for _ in range(rng.choice([4, 4, 5, 6]))) for _ in range(1000)]
-        for tup in tups:
+        nex = sum(len(alpha) ** n for n in range(1, maxlen + 1))
+        for idx, tup in enumerate(tups):
             odd = len(tup) % 2
+            ops = _flatten([[k] for k in tup])
+            if idx >= nex:
+                ops = _inject_cpr(ops, rng)
             kcases.append({"kind": "keys", "mode": mode, "multiline": False, "text": "xy" if odd else "",
-                           "cur": 1 if odd else 0, "history": [], "ops": _flatten([[k] for k in tup])})
+                           "cur": 1 if odd else 0, "history": [], "ops": ops})
     for _ in range(350 if quick else 4500):
         mode = rng.choice(["emacs", "vi"])
         toks = EMACS_TOKENS if mode == "emacs" else VI_TOKENS
@@ -841,11 +882,12 @@ def _key_cases(quick, rng):
         tl = [rng.choice(toks) for _ in range(rng.randrange(1, 26))]
         if rng.random() < 0.6:
             # a tail that exercises deep undo / redo: m undos, up to m redos, an edit, more undos
-            u = ["c-_"] if mode == "emacs" else ["escape", "u"]
+            def u():     # emacs: both undo keys, mixed within one chain
+                return rng.choice([["c-_"], ["c-x", "c-u"]]) if mode == "emacs" else ["escape", "u"]
             m = rng.randrange(1, 5)
-            tl += [u] * m + [["f12"]] * rng.randrange(0, m + 1)
+            tl += [u() for _ in range(m)] + [["f12"]] * rng.randrange(0, m + 1)
             if rng.random() < 0.5:
-                tl += [rng.choice(toks)] + [u] * rng.randrange(0, 3) + [["f12"]] * rng.randrange(0, 2)
+                tl += [rng.choice(toks)] + [u() for _ in range(rng.randrange(0, 3))] + [["f12"]] * rng.randrange(0, 2)
         r = rng.random()
         if r < 0.08:
             tl.insert(rng.randrange(len(tl) + 1), ["f10"])
@@ -855,20 +897,24 @@ def _key_cases(quick, rng):
         kcases.append({"kind": "keys", "mode": mode, "multiline": "\n" in text or rng.random() < 0.4,
                        "text": text, "cur": cur,
                        "history": rng.choice([[], [], ["old one", "older\ntwo"]]),
-                       "ops": _flatten(tl, rng)})
+                       "ops": _inject_cpr(_flatten(tl, rng), rng)})
     # ---- fully modelled emacs keys: the model predicts the text too, rules and identities are static
     ecases = []
-    small = ["a", "b", "c-h", "left", "c-k", "c-_", "f12"]
+    small = ["a", "b", "c-h", "left", "c-k", "c-_", "c-x_c-u", "f12"]
     maxlen = 3 if quick else 4
     tups = [t for n in range(1, maxlen + 1) for t in itertools.product(small, repeat=n)]
     if quick:   # beyond the exhaustive bound: a seeded sample of longer sequences
         tups += [tuple(rng.choice(small) for _ in range(rng.choice([4, 4, 5]))) for _ in range(250)]
     else:
         tups += [tuple(rng.choice(small) for _ in range(rng.choice([5, 5, 6, 7]))) for _ in range(2000)]
-    for tup in tups:
+    nex = sum(len(small) ** n for n in range(1, maxlen + 1))
+    for idx, tup in enumerate(tups):
         odd = len(tup) % 2
+        ops = [[k, k if len(k) == 1 else None] for k in tup]
+        if idx >= nex:
+            ops = _inject_cpr(ops, rng)
         ecases.append({"kind": "ekeys", "multiline": False, "text": "xy" if odd else "", "cur": 1 if odd else 0,
-                       "ops": [[k, k if len(k) == 1 else None] for k in tup]})
+                       "ops": ops})
     for _ in range(150 if quick else 1500):
         n = rng.choice([0, 1, 2, 3, 6, 12])
         text = "".join(rng.choice(["a", "b", " ", "x", "\n", "世"]) for _ in range(n))
@@ -879,7 +925,8 @@ def _key_cases(quick, rng):
         for _ in range(rng.randrange(1, 30)):
             k = rng.choice(EKEYS + ["a", "b", "世", " ", "c-_", "c-_", "f12", "c-h"])
             ops.append([k, k if len(k) == 1 else None])
-        ecases.append({"kind": "ekeys", "multiline": "\n" in text, "text": text, "cur": cur, "ops": ops})
+        ecases.append({"kind": "ekeys", "multiline": "\n" in text, "text": text, "cur": cur,
+                       "ops": _inject_cpr(ops, rng)})
     # ---- fully modelled vi keys
     vcases = []
     maxlen = 3 if quick else 4
@@ -888,10 +935,14 @@ def _key_cases(quick, rng):
         tups += [tuple(rng.choice(VKEYS) for _ in range(rng.choice([4, 5, 6]))) for _ in range(200)]
     else:
         tups += [tuple(rng.choice(VKEYS) for _ in range(rng.choice([5, 6, 7, 8]))) for _ in range(1500)]
-    for tup in tups:
+    nex = sum(len(VKEYS) ** n for n in range(1, maxlen + 1))
+    for idx, tup in enumerate(tups):
         m = len(tup) % 3
+        ops = [[k, k if len(k) == 1 else None] for k in tup]
+        if idx >= nex:
+            ops = _inject_cpr(ops, rng)
         vcases.append({"kind": "vkeys", "multiline": m == 2, "text": ["", "xy", "ab\ncd"][m], "cur": [0, 1, 2][m],
-                       "ops": [[k, k if len(k) == 1 else None] for k in tup]})
+                       "ops": ops})
     for _ in range(150 if quick else 1500):
         n = rng.choice([0, 1, 2, 3, 6, 12])
         text = "".join(rng.choice(["a", "b", " ", "x", "\n", "世"]) for _ in range(n))
@@ -902,7 +953,8 @@ def _key_cases(quick, rng):
         for _ in range(rng.randrange(1, 30)):
             k = rng.choice(VKEYS + ["escape", "u", "i"])
             ops.append([k, k if len(k) == 1 else None])
-        vcases.append({"kind": "vkeys", "multiline": "\n" in text, "text": text, "cur": cur, "ops": ops})
+        vcases.append({"kind": "vkeys", "multiline": "\n" in text, "text": text, "cur": cur,
+                       "ops": _inject_cpr(ops, rng)})
     _warm(kcases + [_as_keys(c) for c in ecases + vcases])
     yield from kcases
     yield from ecases
@@ -993,7 +1045,7 @@ def distribution(cases):
                 nk = tr["note"].split(" at key")[0][:40]
                 d["sessions_cut_short"][nk] = d["sessions_cut_short"].get(nk, 0) + 1
             for r in tr["recs"]:
-                if r.get("kp_reset"):
+                if r.get("kp_reset") or r.get("cpr"):
                     continue
                 d["key_calls"] += 1
                 if r["atoms"] and tuple(r["pre"]) != tuple(r["post"]):
